@@ -42,4 +42,20 @@ PROPS = {
         "rule": "cases: corpus, slot x byte-class sweep (incl. invalid UTF-8 classes), corpus truncations, floods of one token up to 8 KiB, extreme numbers/dates, 4-30 stacked mutations, light mutations, rendered documents, random bytes, single-value/key/date-time fragments; each input is one evaluation driving ~20 entry points and their follow-ups. distinct = content hash of the input; every hostile input counts as non-trivial",
         "assumptions": COMMON + ["wall-clock is only used for screening, never as a verdict; bounded work is judged by deterministic instruction counts (callgrind) in the thorough tier"],
     },
+    "C09": {
+        "claimed": True,
+        "technique": "reference-model monitor: exhaustive small-scope enumeration of statement sequences executed by the real parsers and judged by an explicit definition-rule state machine",
+        "level_text": "all sequences of up to 3 statements (thorough: 4 over the core set) out of 98 over key paths of length <= 3 on {a,b}, in bare/quoted/mixed spellings, plus random longer sequences over three letters, are parsed by DocumentMut and toml::Table; accept/reject and the merged tree are compared with the definition-rule model written from the specification's prose; U1-b sequences are skipped and counted",
+        "level_note": "trusted: the definition-rule model of refmodel (three readings; agreement required for a verdict). The enumeration is exhaustive for the stated bounds but is still execution + monitoring, not proof",
+        "rule": "cases: every sequence of 1, 2 and 3 statements from the 98-statement set (exhaustive), thorough adds every 4-sequence over 56 core statements; random sequences of 4-8 statements over {a,b,c}. distinct = text hash; non-trivial = sequences with >= 2 statements",
+        "assumptions": COMMON + ["U1-b (dotted key into a header-implicit table) is undecided by the specification and skipped"],
+    },
+    "C10": {
+        "claimed": True,
+        "technique": "relational round-trip monitor with an independent reference lexer: every offered quoting style of every enumerated string is parsed back alone and inside documents",
+        "level_text": "for every string of length <= 4 (thorough <= 6) over a 14-class alphabet and for random long strings with quote runs, every style the writer offers for values and keys is parsed by the real value/key/document parsers and by R, and must decode to exactly the string; refused styles are counted; a default must exist and be one of the offered styles",
+        "level_note": "trusted: R's string/key lexer. Exhaustive for the alphabet and length bounds given",
+        "rule": "cases: all strings over {quote, apostrophe, backslash, LF, CR, TAB, space, NUL, U+0001, DEL, #, a, e-acute, emoji} up to the length bound (exhaustive) + random long strings with runs of quotes up to 300; each string is one evaluation exercising up to 10 value styles and 7 key styles in 4+4 syntactic positions. distinct = the string; all are non-trivial",
+        "assumptions": COMMON,
+    },
 }
